@@ -17,7 +17,27 @@ def text(name):
     """fixture text; 'name~-OD1-OD2@25' is the fixture `name` without the atoms OD1 and OD2 of residue 25
     (an incompletely modelled residue)"""
     if name not in _TXT:
-        if ':' in name:
+        if '|' in name:
+            # 'name|BC@37': the atoms of residue 37 exist only as alternate locations B and C (C displaced by (0.3, 0.2, -0.1));
+            # everything else has no alternate-location tag: three conformations A, B, C, the first one lacking the residue
+            base, spec = name.split('|', 1)
+            tags, resnum = spec.split('@')
+            out = []
+            for l in text(base).split('\n'):
+                if l[:6] in ('ATOM  ', 'HETATM') and int(l[22:26]) == int(resnum):
+                    for i, t in enumerate(tags):
+                        c = [float(l[30:38]) + 0.3 * i, float(l[38:46]) + 0.2 * i, float(l[46:54]) - 0.1 * i]
+                        out.append(l[:16] + t + l[17:30] + '%8.3f%8.3f%8.3f' % tuple(c) + l[54:])
+                elif l:
+                    out.append(l)
+            _TXT[name] = '\n'.join(out) + '\n'
+        elif '^' in name:
+            # 'name^MTX=L': the records of residue name MTX get chain identifier L (a hetero group on a chain of its own)
+            base, spec = name.split('^', 1)
+            resname, chain = spec.split('=')
+            _TXT[name] = '\n'.join((l[:21] + chain + l[22:]) if (l[:6] in ('ATOM  ', 'HETATM') and l[17:20].strip() == resname) else l
+                                   for l in text(base).split('\n') if l) + '\n'
+        elif ':' in name:
             # 'name:41-43': only the residues numbered 41..43 of the fixture (a fragment), closed by a TER record
             base, rng = name.split(':', 1)
             lo, hi = [int(x) for x in rng.split('-')]
@@ -25,9 +45,13 @@ def text(name):
         elif '~' in name:
             base, spec = name.split('~', 1)
             atoms, resnum = spec.split('@')
+            chain = None
+            if resnum[-1].isalpha():      # '...@24B': residue 24 of chain B only
+                resnum, chain = resnum[:-1], resnum[-1]
             drop = set(x for x in atoms.split('-') if x)
             _TXT[name] = '\n'.join(l for l in text(base).split('\n')
-                                   if l and not (l[:6] in ('ATOM  ', 'HETATM') and int(l[22:26]) == int(resnum) and l[12:16].strip() in drop)) + '\n'
+                                   if l and not (l[:6] in ('ATOM  ', 'HETATM') and int(l[22:26]) == int(resnum) and l[12:16].strip() in drop
+                                                 and (chain is None or l[21] == chain))) + '\n'
         else:
             _TXT[name] = open(os.path.join(FIX, name + '.pdb')).read()
     return _TXT[name]
